@@ -741,6 +741,20 @@ sc_threads_unjoined(void) {
 	return (n);
 }
 
+/* Join a thread of the scenario's own unless somebody (the code under test) has joined it already. */
+int
+sc_join_if_unjoined(pthread_t pt) {
+	int t;
+	for (t = 1; t < sc_nthr; t ++) {
+		if (sc_thr[t].used && pthread_equal(sc_thr[t].pt, pt)) {
+			if (sc_thr[t].joined)
+				return (0);
+			return (__wrap_pthread_join(pt, NULL));
+		}
+	}
+	return (ESRCH);
+}
+
 int
 sc_wrapped_mutex_locked_count(void) {
 	int i, n = 0;
